@@ -33,17 +33,13 @@ pub fn glob_case(sc: &Value) -> Value {
     }
 }
 
-/// {"s": "..."} -> the two template regexes of utils/convert.rs on s
+/// {"s": "..."} -> the engine's own template scanners (utils::get_expr / get_exprs) on s
 pub fn regex_case(sc: &Value) -> Value {
     let s = sc["s"].as_str().unwrap_or("");
-    let re1 = regex::Regex::new(r"^\{\{(.+)\}\}$").unwrap();
-    let re2 = regex::Regex::new(r"\{\{(.*)\}\}").unwrap();
-    let one = re1
-        .captures(s)
-        .map(|c| c.get(1).map_or("", |m| m.as_str()).trim().to_string());
-    let many: Vec<Value> = re2
-        .find_iter(s)
-        .map(|m| json!([m.start(), m.end(), m.as_str()]))
+    let one = acts::verif::get_expr(s);
+    let many: Vec<Value> = acts::verif::get_exprs(s)
+        .into_iter()
+        .map(|(a, b, t)| json!([a, b, t]))
         .collect();
     json!({"one": one, "many": many})
 }
